@@ -2059,6 +2059,38 @@ var oddities = []oddity{
 		}
 		return append(b, rawTarEnd()...)
 	}},
+	{"link-to-lying-size", func(r *hx.Rand) []byte {
+		// Scanner paths that are a hard link, a symbolic link or a chain of
+		// links to a member whose size record lies (far too large, or a little
+		// past its data): every way of reaching a member has to look at its
+		// size. Six paths per layer, every kind of link and of lie.
+		var out []byte
+		start := r.Intn(len(scannerPaths))
+		for k := 0; k < 6; k++ {
+			p := scannerPaths[(start+k*5)%len(scannerPaths)]
+			body := sampleFor(r, p)
+			t := fmt.Sprintf("t%d", k)
+			size := []string{"9223372036854775807", "4611686018427387904", "1099511627776", fmt.Sprint(len(body) + 600), fmt.Sprint(len(body) + (512-len(body)%512)%512 + 1)}[(k+start)%5]
+			target := cat(paxRecords("size", size), rawTarFile(t, body))
+			var link []byte
+			switch (k + start/5) % 4 {
+			case 0:
+				link = rawTarHeader(p, '1', 0, t, 0o644)
+			case 1:
+				link = rawTarHeader(p, '2', 0, "/"+t, 0o777)
+			case 2:
+				link = cat(rawTarHeader("u"+t, '1', 0, t, 0o644), rawTarHeader(p, '1', 0, "u"+t, 0o644))
+			default:
+				link = cat(rawTarHeader("u"+t, '2', 0, t, 0o777), rawTarHeader(p, '1', 0, "u"+t, 0o644))
+			}
+			if r.Chance(1, 2) {
+				out = append(out, cat(link, target)...)
+			} else {
+				out = append(out, cat(target, link)...)
+			}
+		}
+		return append(out, rawTarEnd()...)
+	}},
 	{"pax-odd-records", func(r *hx.Rand) []byte {
 		body := []byte(lyPick(r, "0 path=x\n", "999999999999 path=x\n", "11 path=\x00\n", "5 x\n", "30 linkpath=../../../../etc/x\n", "19 GNU.sparse.major=1\n18 GNU.sparse.size=9\n", strings.Repeat("13 path=aaaa\n", 2000)))
 		x := rawTarHeader("PaxHeaders.0/x", lyPick(r, "x", "g")[0], int64(len(body)), "", 0o644)
